@@ -321,6 +321,11 @@ def oracle_c07(obs, part, replay):
         if any(ln and b':' not in ln and ln[:1] not in b' \t' for ln in re.split(br'\r?\n', rec['block'][:head_end])[1:]):
             long_header += '/colonless-line'
             part.count('cdx_lines_for_headers_with_colonless_line')
+        if head_end - (2 if rec['block'][head_end - 2:head_end] == b'\r\n' else 1) >= 32766:
+            long_header += '/header-at-reader-limit'
+            part.count('cdx_lines_for_headers_at_the_reader_limit')
+        if len(row.get('a') or '') >= 1024:
+            part.count('cdx_lines_for_urls_of_1024_or_more')
         if row.get('s') != (status or '-'):
             part.violation('cdx-status-wrong' + long_header, {'row_s': row.get('s'), 'archived': status,
                                                 'head': rec['block'][:120]}, replay)
@@ -425,6 +430,20 @@ def vary_content_types(rng, case):
             r['boundaries'] = [b + len(pad) if b >= eol else b for b in r['boundaries']]
             r['head_len'] += len(pad)
             r['classes'] = dict(r['classes'], long_header=True)
+        if rng.random() < 0.02:
+            # header block at the size limit of the HTTP reader: status and field lines total exactly 32766..32768 bytes
+            # (one more is refused by the client before anything is recorded)
+            eol = r['wire'].find(b'\n') + 1
+            end = b'\r\n' if r['wire'][:eol].endswith(b'\r\n') else b'\n'
+            lines_total = r['head_len'] - len(end)
+            target = rng.choice([32766, 32767, 32768])
+            k = target - lines_total - len(b'X-Fill: ') - len(end)
+            if k > 0:
+                pad = b'X-Fill: ' + b'f' * k + end
+                r['wire'] = r['wire'][:eol] + pad + r['wire'][eol:]
+                r['boundaries'] = [b + len(pad) if b >= eol else b for b in r['boundaries']]
+                r['head_len'] += len(pad)
+                r['classes'] = dict(r['classes'], long_header=True, header_at_limit=target)
         r['boundaries'] = [b for b in r['boundaries'] if 0 < b < len(r['wire'])]
 
 
